@@ -229,6 +229,17 @@ NEAR_SCALES = ["1e-3", "1e-4", "2e-5", "1e-5", "1e-6", "1e-7", "1e-9", "1e-12"]
 NEAR_SHAPES = ["all", "one", "some", "mix"]
 
 
+# Red-team round 5 (rule 11): points whose coordinates are all integers (the vertices of [0,1]^n; (1, 0..5) of the bi-objective
+# box) written the natural way, as ints.  The model and the oracle see the same point as floats.  "tuple_int" is assigned to
+# Individual.vector (Individual(tuple) itself raises: tuple has no .copy()); "mixed_int" writes only the integral
+# coordinates of a point as ints, the others stay floats.
+INT_DTYPES = ("int", "tuple_int", "np_int64", "np_int32", "np_int64_scalars", "np_uint8")
+
+
+def integral(x):
+    return all(float(v).is_integer() for v in x)
+
+
 def as_dtype(x, dtype):
     import numpy as np
     if dtype == "float":
@@ -237,6 +248,19 @@ def as_dtype(x, dtype):
         return [np.float64(v) for v in x]
     if dtype == "np_array":
         return np.array(x, dtype=np.float64)
+    if dtype == "mixed_int":
+        return [int(v) if float(v).is_integer() else float(v) for v in x]
+    if dtype in INT_DTYPES:
+        if not integral(x):
+            raise ValueError("not an integer point: %r" % (x,))
+        xi = [int(v) for v in x]
+        if dtype == "int":
+            return xi
+        if dtype == "tuple_int":
+            return tuple(xi)
+        if dtype == "np_int64_scalars":
+            return [np.int64(v) for v in xi]
+        return np.array(xi, dtype={"np_int64": np.int64, "np_int32": np.int32, "np_uint8": np.uint8}[dtype])
     raise ValueError(dtype)
 
 
@@ -292,7 +316,8 @@ def run(ctx):
     seen_goals = set()
     stats = {"points": 0, "by_class": {}, "by_m": {}, "by_style": {}, "by_dtype": {}, "numpy_bit_identical": 0,
              "numpy_differs": 0, "goals": 0, "oracle_only_points": 0, "position_vars_at_half": 0, "by_variant": {},
-             "near_front_points": 0}
+             "near_front_points": 0, "integer_points": 0, "dtlz1_k_of_integer_points": {},
+             "differs_from_float_input_by_dtype": {}}
 
     def model_term(kind, m, x):
         xs = "[" + "; ".join(rl(v) for v in x) + "]"
@@ -302,7 +327,13 @@ def run(ctx):
 
     def evaluate(kind, m, x, dtype, variant="default"):
         p = problem(kind, m, len(x), variant)
-        return p.evaluate(Individual(as_dtype(x, dtype)))
+        v = as_dtype(x, dtype)
+        if isinstance(v, tuple):
+            ind = Individual([0.0])
+            ind.vector = v
+        else:
+            ind = Individual(v)
+        return p.evaluate(ind)
 
     def check_point(kind, m, x, style, dtypes=("float", "np_float64"), with_goals=True, variant=None):
         """Runs the implementation on x (once per dtype), the direct oracle on every result, and emits
@@ -311,6 +342,11 @@ def run(ctx):
         if kind == "biobj" and not variant.startswith(("default", "in_place")):
             variant = "default"            # BiObjectiveTestProblem.set() takes no keywords: the constructor accepts none
         inp = {"class": kind, "m": m, "dimension": len(x), "x": [float(v) for v in x], "style": style, "constructed": variant}
+        if any(d in INT_DTYPES or d == "mixed_int" for d in dtypes):
+            stats["integer_points"] += 1
+            if kind == "dtlz1":
+                k_ = len(x) - m + 1
+                stats["dtlz1_k_of_integer_points"][k_] = stats["dtlz1_k_of_integer_points"].get(k_, 0) + 1
         stats["by_variant"][variant] = stats["by_variant"].get(variant, 0) + 1
         if style.startswith("near"):
             stats["near_front_points"] += 1
@@ -326,6 +362,8 @@ def run(ctx):
                 ctx.mismatches.append({"what": msg, "correspondence": "c16", "case": dict(inp, dtype=dtype)})
                 continue
             for why in oracle(kind, m, x, f):
+                if dtype in INT_DTYPES or dtype == "mixed_int":
+                    why += " [design vector passed as %s: %r]" % (dtype, as_dtype(x, dtype))
                 ctx.oracle_failures.append({"what": why, "input": dict(inp, dtype=dtype),
                                             "observed": [repr(v) for v in f],
                                             "match": {"kind": "pareto_bench_point", "class": kind}})
@@ -353,6 +391,7 @@ def run(ctx):
                     stats["numpy_bit_identical"] += 1
                 else:
                     stats["numpy_differs"] += 1
+                    stats["differs_from_float_input_by_dtype"][dtype] = stats["differs_from_float_input_by_dtype"].get(dtype, 0) + 1
             else:
                 first = f
             if len(f) != want_len:
@@ -393,7 +432,8 @@ def run(ctx):
             if ctx.thorough:
                 styles += ["corner", "pareto", "mixed", "mixed"]
             for style in styles:
-                check_point(kind, m, gen_point(rng, kind, m, n, style), style)
+                check_point(kind, m, gen_point(rng, kind, m, n, style), style,
+                            dtypes=("float", "np_float64") + (INT_DTYPES if style == "corner" else ()))
     # ---- near the Pareto-optimal set: distance variables approaching 0.5 at every scale, both sides (rule 8) -----
     # with model goals: every scale for DTLZ3 (the multimodal g cancels k - sum(cos)) and DTLZ1, two scales for DTLZ2 / 4
     for kind in ("dtlz3", "dtlz1", "dtlz2", "dtlz4"):
@@ -415,7 +455,11 @@ def run(ctx):
     # ---- DTLZ1 with other k (dimension m + k - 1) --------------------------------------------
     for m, k in [(2, 1), (3, 5), (2, 5), (4, 1), (3, 2)][:ctx.pick(3, 5)]:
         for style in ["random", "corner"] + (["random"] * 4 if ctx.thorough else []):
-            check_point("dtlz1", m, gen_point(rng, "dtlz1", m, m + k - 1, style), style)
+            check_point("dtlz1", m, gen_point(rng, "dtlz1", m, m + k - 1, style), style,
+                        dtypes=("float", "np_float64") + (INT_DTYPES if style == "corner" else ()))
+    # even k (at a vertex (1+g)/2 = (1+25k)/2 is not an integer), the vertex with the whole weight on the first objective
+    for m, k in [(3, 2), (2, 6), (4, 4)][:ctx.pick(2, 3)]:
+        check_point("dtlz1", m, [1.0] * (m - 1) + [0.0] * k, "corner", dtypes=("float",) + INT_DTYPES)
     # ---- ZDT1 (the class fixes dimension 30; evaluate uses len(x.vector)) --------------------
     zpoints = [[0.5] * 30, [0.0] * 30, [1.0] * 30, [1.0] + [0.0] * 29, [0.0] + [1.0] * 29]
     for _ in range(ctx.pick(4, 40)):
@@ -428,7 +472,7 @@ def run(ctx):
     zpoints.append([1.0 - 2.0 ** -53] + [1e-9] * 29)
     zpoints.append([5e-324] + [1.0 - 2.0 ** -53] * 29)
     for x in zpoints:
-        check_point("zdt1", 2, x, "zdt1", dtypes=("float", "np_float64", "np_array"))
+        check_point("zdt1", 2, x, "zdt1", dtypes=("float", "np_float64", "np_array") + (INT_DTYPES if integral(x) else ()))
     # ---- bi-objective problem on [0.1,1] x [0,5] ----------------------------------------------
     bpoints = [[0.1, 0.0], [1.0, 5.0], [0.1, 5.0], [1.0, 0.0], [0.5, 2.0]]
     for _ in range(ctx.pick(4, 40)):
@@ -436,7 +480,7 @@ def run(ctx):
     # the edges of the box from inside (rule 8)
     bpoints += [[math.nextafter(0.1, 1.0), 5e-324], [math.nextafter(1.0, 0.0), math.nextafter(5.0, 0.0)], [0.1, 1e-9], [1.0, 1e-300]]
     for x in bpoints:
-        check_point("biobj", 2, x, "biobj", dtypes=("float", "np_float64", "np_array"))
+        check_point("biobj", 2, x, "biobj", dtypes=("float", "np_float64", "np_array") + (INT_DTYPES if integral(x) else ()))
 
     # ---- oracle-only stream: many more points through the implementation and the identities ------
     n_oracle = ctx.pick(150, 3000)
@@ -468,6 +512,28 @@ def run(ctx):
         check_point("dtlz1", m, gen_point(rng, "dtlz1", m, m + k - 1, "random"), "random", dtypes=("float",), with_goals=False)
         check_point("zdt1", 2, [rng.random() for _ in range(30)], "zdt1", dtypes=("float",), with_goals=False)
         check_point("biobj", 2, [rng.uniform(0.1, 1.0), rng.uniform(0.0, 5.0)], "biobj", dtypes=("float",), with_goals=False)
+
+    # ---- all-integer design vectors, oracle only (rule 11): every class, every m, every representation -------------
+    n_int = ctx.pick(5, 30)
+    for kind in ("dtlz1", "dtlz2", "dtlz3", "dtlz4"):
+        for m in MS + [8, 12]:
+            for j in range(n_int):
+                check_point(kind, m, gen_point(rng, kind, m, m + 9, "corner"), "corner", dtypes=INT_DTYPES, with_goals=False)
+            # one position variable on a bound written as an int, everything else floats
+            check_point(kind, m, gen_point(rng, kind, m, m + 9, "mixed"), "mixed", dtypes=("float", "mixed_int"), with_goals=False)
+    for m in MS:                                   # DTLZ1 with every k = 1..12 (even and odd)
+        for k in range(1, 13):
+            check_point("dtlz1", m, [1.0] * (m - 1) + [0.0] * k, "corner", dtypes=INT_DTYPES, with_goals=False)
+            for j in range(ctx.pick(2, 8)):
+                check_point("dtlz1", m, gen_point(rng, "dtlz1", m, m + k - 1, "corner"), "corner", dtypes=INT_DTYPES, with_goals=False)
+    for n in (2, 5, 30):
+        for j in range(n_int):
+            check_point("zdt1", 2, [float(rng.randrange(2)) for _ in range(n)], "zdt1", dtypes=INT_DTYPES, with_goals=False)
+        check_point("zdt1", 2, [rng.random()] + [float(rng.randrange(2)) for _ in range(n - 1)], "zdt1", dtypes=("float", "mixed_int"), with_goals=False)
+    for x2 in range(6):                            # the integer points of [0.1,1] x [0,5]
+        check_point("biobj", 2, [1.0, float(x2)], "biobj", dtypes=INT_DTYPES, with_goals=False)
+        check_point("biobj", 2, [rng.uniform(0.1, 1.0), float(x2)], "biobj", dtypes=("float", "mixed_int"), with_goals=False)
+        check_point("biobj", 2, [1.0, rng.uniform(0.0, 5.0)], "biobj", dtypes=("float", "mixed_int"), with_goals=False)
 
     # ---- purity probe: the models are functions of the point; the implementation must be one too --------
     # (no state shared between overlapping evaluations on one problem object - parallel evaluation runs
@@ -509,7 +575,9 @@ def run(ctx):
                 "1e-3 .. 1e-12 from both sides (all / one / some / mixed) for every DTLZ class, checked by a tight clause (g-dependent part "
                 "of the identity against the exactly recomputed g), ZDT1 with g -> 1, the box edges from inside; every point goes to a "
                 "problem constructed with one of: no extra keyword, criteria='minimize' / 'maximize' / 'max', other keywords, or the declared "
-                "direction changed in place per objective after construction")
+                "direction changed in place per objective after construction; the integer points of each box (vertices of [0,1]^n, (1, 0..5) of "
+                "the bi-objective box) are also passed as ints: list, tuple, int64 / int32 / uint8 arrays, list of numpy int64, and lists mixing ints "
+                "and floats, for every class and m, DTLZ1 with every k = 1..12")
     ctx.extra.update({"input_distribution": stats, "point_goal_tolerance": "1e-9 * (1 + |y_impl|), Interval i_prec 80",
                       "not_covered": "finite-float behaviour of the implementation is sampled only; the R-valued model cannot overflow"})
 
